@@ -2,10 +2,20 @@
 
 package input
 
-import "github.com/holoplot/go-evdev"
+import (
+	"context"
+	"time"
+
+	"github.com/holoplot/go-evdev"
+)
 
 // NewDeviceInfoVerif builds a DeviceInfo with an event-node name (the field is unexported and is
 // otherwise only filled from a real /dev/input node).  Verification harness only.
 func NewDeviceInfoVerif(name, phys, event string, id InputID, caps []evdev.EvType) DeviceInfo {
 	return DeviceInfo{ID: id, Name: name, Phys: phys, eventName: event, CapableTypes: caps}
+}
+
+// MonitorNewHandlersVerif exposes the unexported discovery front end.  Verification harness only.
+func MonitorNewHandlersVerif(ctx context.Context, rate time.Duration) <-chan []string {
+	return monitorNewHandlers(ctx, rate)
 }
